@@ -1751,6 +1751,11 @@ def _serialize_experimental_value_info_for_function_ir9_into(
     # TODO(justinchuby): In the future, we can decide if it is a good idea to simply iterate over
     # all values in the function and call serialize_value_into instead.
     function_qualified_name = f"{function.domain}::{function.name}"
+    if function.overload:
+        # The experimental name format has no place for the overload (overloads were
+        # introduced together with FunctionProto.value_info in IR version 10), so the
+        # entries could not be attached to this function again when the model is loaded
+        return
 
     def format_name(value_name: str) -> str:
         return f"{function_qualified_name}/{value_name}"
